@@ -324,6 +324,9 @@ func init() {
 		r.Min("lock-order", 5)
 		reportBalanced(r, "lock-balanced")
 		r.Min("lock-balanced", 40)
+		// assumption (2) of the race check is itself checked: slices published
+		// into the primary's pool are not written again
+		ruleRetain(r)
 		r.Sites = len(la.accesses)
 	},
 		"Decides a structural necessary condition of data-race freedom, not the behaviour: an interprocedural must-hold lockset analysis over go/ssa from the thread roots named in the statement (public calls FG, flusher FL, index GC supervisor+cycle, primary GC supervisor+cycle). For every struct field of the store's shared types (map/slice contents merged into the field) and every pair of accesses with at least one write reachable from concurrently runnable roots, a common lock must be held, exclusively on one side. Also: lock acquire/release balanced on every path, and the acquired-while-holding relation is acyclic. Not covered: happens-before through channels, aliasing the field abstraction does not see, Open/Close/iterator entry points.",
